@@ -5,7 +5,8 @@ GUARDS = {"WellFormedSucceeds", "LiveAccessible", "NoOverlap", "ContentsKept.gen
           "DestructiveAvoidsLive", "AllReleased", "DirtyAllReleased", "QuiesceNoLive", "FailedReallocKeepsOld", "Invariant.Inv", "MmapFresh",
           "ZeroOK", "UsableAtLeastRequested", "AlignOK", "OutParamUnchanged"}
 SETTINGS = [("default", {}), ("tiny", {"MIMALLOC_ARENA_RESERVE": "32768"}),
-            ("lazy", {"MIMALLOC_EAGER_COMMIT": "0", "MIMALLOC_ARENA_EAGER_COMMIT": "0"}), ("noarena", {"MIMALLOC_DISALLOW_ARENA_ALLOC": "1"})]
+            ("lazy", {"MIMALLOC_EAGER_COMMIT": "0", "MIMALLOC_ARENA_EAGER_COMMIT": "0"}), ("noarena", {"MIMALLOC_DISALLOW_ARENA_ALLOC": "1"}),
+            ("largepages", {"MIMALLOC_ALLOW_LARGE_OS_PAGES": "1"})]      # (no huge pages are configured: the OS refuses the large-page mapping and ordinary pages are used)
 KINDS = {0: "any", 1: "map", 2: "unmap", 3: "protect", 4: "advise"}
 
 def count_os(exe, wl, env, kind):
